@@ -1,10 +1,10 @@
 SPECIFICATION SpecCore
 CONSTANTS
-  MCCat <- CatCustom
-  MCSub <- SubCustom
-  RootClasses <- RootsCustom
-  FilterStrs <- FilterCustom
-  AssignSpecs <- AssignCustom
+  MCCat <- CatNet
+  MCSub <- SubNet
+  RootClasses <- RootsNet
+  FilterStrs <- FilterNet
+  AssignSpecs <- AssignNet
   MaxSteps = 2
   DirectCalls = TRUE
 INVARIANT Shape
